@@ -413,9 +413,11 @@ where
 }
 
 // ------------------------------------------------------------------ shadow: plain libc calls
+thread_local! { static HFLAG: std::cell::Cell<u32> = std::cell::Cell::new(0); }
 struct Shadow {
     fds: Vec<i32>,       // inode slots: O_PATH fds (-1 = failed)
     hs: Vec<(i32, i32)>, // handle slots: (fd, inode slot)
+    hflags: Vec<u32>,    // flags last applied to the descriptor of each handle slot
     writeback: bool,
     no_open: bool,
     no_opendir: bool,
@@ -561,6 +563,7 @@ impl Shadow {
         }
     }
     fn run(&mut self, a: &[&str]) -> String {
+        HFLAG.with(|c| c.set(match a[0] { "create" => num(a[5]) as u32, "open" => num(a[2]) as u32, "opendir" => num(a[2]) as u32 | libc::O_DIRECTORY as u32, _ => 0 }));
         let e = |c: i32| format!("errno={}", c);
         let ok = || "errno=0".to_string();
         match a[0] {
@@ -735,13 +738,13 @@ impl Shadow {
                 let n = cstr(a[2]);
                 if unsafe_name(&n) {
                     self.fds.push(-1);
-                    self.hs.push((-1, 0));
+                    { self.hflags.push(HFLAG.with(|c| c.get())); } self.hs.push((-1, 0));
                     return e(libc::EINVAL);
                 }
                 let d = self.fd(a[1]);
                 if d < 0 {
                     self.fds.push(-1);
-                    self.hs.push((-1, 0));
+                    { self.hflags.push(HFLAG.with(|c| c.get())); } self.hs.push((-1, 0));
                     return e(libc::EBADF);
                 }
                 let flags = num(a[5]) as i32;
@@ -768,7 +771,7 @@ impl Shadow {
                 let created = match created {
                     Err(c) => {
                         self.fds.push(-1);
-                        self.hs.push((-1, 0));
+                        { self.hflags.push(HFLAG.with(|c| c.get())); } self.hs.push((-1, 0));
                         return e(c);
                     }
                     Ok(x) => x,
@@ -779,7 +782,7 @@ impl Shadow {
                     if let Some(f) = created {
                         unsafe { libc::close(f) };
                     }
-                    self.hs.push((-1, 0));
+                    { self.hflags.push(HFLAG.with(|c| c.get())); } self.hs.push((-1, 0));
                     return line;
                 }
                 let fd = match created {
@@ -801,7 +804,7 @@ impl Shadow {
                             Err(c) => {
                                 // the entry was looked up, the request fails: the client never learns the inode
                                 self.fds[islot] = -1;
-                                self.hs.push((-1, 0));
+                                { self.hflags.push(HFLAG.with(|c| c.get())); } self.hs.push((-1, 0));
                                 return e(c);
                             }
                         }
@@ -809,10 +812,10 @@ impl Shadow {
                 };
                 if self.no_open {
                     unsafe { libc::close(fd) };
-                    self.hs.push((-1, 0));
+                    { self.hflags.push(HFLAG.with(|c| c.get())); } self.hs.push((-1, 0));
                     format!("{} handle=0", line)
                 } else {
-                    self.hs.push((fd, islot as i32));
+                    { self.hflags.push(HFLAG.with(|c| c.get())); } self.hs.push((fd, islot as i32));
                     format!("{} handle=1", line)
                 }
             }
@@ -869,7 +872,7 @@ impl Shadow {
             }
             "open" | "opendir" => {
                 if (a[0] == "open" && self.no_open) || (a[0] == "opendir" && self.no_opendir) {
-                    self.hs.push((-1, 0));
+                    { self.hflags.push(HFLAG.with(|c| c.get())); } self.hs.push((-1, 0));
                     return e(libc::ENOSYS);
                 }
                 let mut flags = num(a[2]) as i32;
@@ -887,11 +890,11 @@ impl Shadow {
                 match r {
                     Ok(f) => {
                         let islot: i32 = a[1].parse().unwrap();
-                        self.hs.push((f, islot));
+                        { self.hflags.push(HFLAG.with(|c| c.get())); } self.hs.push((f, islot));
                         "errno=0 handle=1".to_string()
                     }
                     Err(c) => {
-                        self.hs.push((-1, 0));
+                        { self.hflags.push(HFLAG.with(|c| c.get())); } self.hs.push((-1, 0));
                         e(c)
                     }
                 }
@@ -922,6 +925,20 @@ impl Shadow {
                 };
                 if fd < 0 {
                     return e(libc::EBADF);
+                }
+                if a[0] == "read" || a[0] == "write" {
+                    // the request carries the client's open flags; the descriptor's status flags follow them
+                    let want = if a[0] == "read" { num(a[5]) as u32 } else { num(a[5]) as u32 };
+                    let cur = if tmp { (if a[0] == "read" { libc::O_RDONLY } else { libc::O_RDWR }) as u32 } else { let i: usize = a[2].parse().unwrap(); self.hflags[i] };
+                    if cur != want {
+                        let r = unsafe { libc::fcntl(fd, libc::F_SETFL, want) };
+                        if r != 0 {
+                            let c = last();
+                            if tmp { unsafe { libc::close(fd) }; }
+                            return e(c);
+                        }
+                        if !tmp { let i: usize = a[2].parse().unwrap(); self.hflags[i] = want; }
+                    }
                 }
                 let out = match a[0] {
                     "read" => {
@@ -1062,6 +1079,32 @@ impl Shadow {
                         }
                     }
                 }
+            }
+            "access" => {
+                let fd = self.fd(a[1]);
+                if fd < 0 {
+                    return e(libc::EBADF);
+                }
+                let st = match fstat_fd(fd) {
+                    Ok(s) => s,
+                    Err(c) => return e(c),
+                };
+                let (mask, uid, gid) = (num(a[2]) as i32 & 7, num(a[3]) as u32, num(a[4]) as u32);
+                let m = st.st_mode;
+                let class = |o: u32, g: u32, w: u32| -> bool { (st.st_uid == uid && m & o != 0) || (st.st_gid == gid && m & g != 0) || m & w != 0 };
+                if mask == 0 {
+                    return ok();
+                }
+                if mask & 4 != 0 && uid != 0 && !class(0o400, 0o040, 0o004) {
+                    return e(libc::EACCES);
+                }
+                if mask & 2 != 0 && uid != 0 && !class(0o200, 0o020, 0o002) {
+                    return e(libc::EACCES);
+                }
+                if mask & 1 != 0 && (uid != 0 || m & 0o111 == 0) && !class(0o100, 0o010, 0o001) {
+                    return e(libc::EACCES);
+                }
+                ok()
             }
             "statfs" => {
                 let fd = self.fd(a[1]);
@@ -1217,7 +1260,7 @@ fn main() {
                         if fd < 0 {
                             return Err(format!("open root: {}", last()));
                         }
-                        Ok(Target::Shadow(Shadow { fds: vec![fd], hs: vec![], writeback: b("writeback"), no_open: b("no_open"), no_opendir: b("no_opendir"), killpriv: b("killpriv_v2"), xattr: b("xattr") }))
+                        Ok(Target::Shadow(Shadow { fds: vec![fd], hs: vec![], hflags: vec![], writeback: b("writeback"), no_open: b("no_open"), no_opendir: b("no_opendir"), killpriv: b("killpriv_v2"), xattr: b("xattr") }))
                     }
                     m => Err(format!("unknown mode {}", m)),
                 })();
